@@ -134,3 +134,16 @@ META["C08"] = dict(technique=_FR_TECH, note=_FR_NOTE,
 META["C09"] = dict(technique=_FR_TECH, note=_FR_NOTE,
     text="PktFraming.tla conn part: returned bytes plus explicitly dropped bytes are, in order, the written stream. Replay on rwc.Conn: write sizes around the 2048-byte pool buffer, "
          "reader buffers 1..4096, chunk scripts; bytes are only skipped right after a read that reported ErrShortBuffer; EOF/error after the end.")
+for _p in ("C27", "C28", "C29"):
+    REGISTRY[_p] = ("floodsub", "run")
+_FS_TECH = "TLC exhaustive model checking of FloodSub.tla (triangle, 4-ring); TLC-simulated behaviours on 7 topologies replayed on real FloodSub nodes over harness-mediated links; recorded traces (handler calls, wire taps) validated by TLC (FloodSubMon.tla)"
+_FS_NOTE = "One channel; links are in-memory; the 100 ms sweep tick is waited out; message de-duplication races are exercised statistically (two streams at once), not by a scheduler gate."
+META["C27"] = dict(technique=_FS_TECH, note=_FS_NOTE,
+    text="DeliverAuthentic / NoForwardOfBad: in every behaviour a forged frame (foreign signature with claimed sender, tampered body, re-targeted channel, wrong context, empty channel, valid message for an unsubscribed channel) is injected on a link; "
+         "subscribers are only handed authentic published messages of their channel, nodes without subscription get nothing, forged messages are never forwarded.")
+META["C28"] = dict(technique=_FS_TECH, note=_FS_NOTE,
+    text="AtMostOnce / QuiescentAllDelivered / NoEcho on the design for all interleavings (triangle with 2 messages, 4-ring) and on real meshes of 3-6 nodes: every subscriber reachable through subscribed nodes gets each message exactly once, "
+         "nothing is sent back to the publisher or the previous hop; plus a de-duplication race (same message on two streams at once, >= 1500 trials).")
+META["C29"] = dict(technique=_FS_TECH + "; opener rule: fn/Opener.tla table replayed through the real pubsub controller", note=_FS_NOTE,
+    text="Exactly one side opens the pubsub stream for all pairs of distinct id strings up to length 3 (incl. prefixes) and seeded real peer ids (through pubsub_controller.trackLink with fake mounted links); "
+         "at every quiescent point the last announcement on every link agrees with the node's local subscriptions (Subscribe=false after the last release), and no handler runs after Release.")
